@@ -173,7 +173,9 @@ func (p PodSpec) K8s() *v1.Pod {
 	}
 	return &v1.Pod{
 		ObjectMeta: metav1.ObjectMeta{Name: p.Name, Namespace: "ns", UID: types.UID(p.Name), Annotations: ann, Labels: labels},
-		Spec: v1.PodSpec{NodeName: p.Node, Containers: []v1.Container{{Name: "c", Resources: v1.ResourceRequirements{Requests: req, Limits: req}}}},
+		// the scheduler name the test session uses (CreateFakeSession): the proportion plugin treats running pods of
+		// other schedulers as capacity that is not the cluster's
+		Spec: v1.PodSpec{NodeName: p.Node, SchedulerName: "kai-scheduler", Containers: []v1.Container{{Name: "c", Resources: v1.ResourceRequirements{Requests: req, Limits: req}}}},
 		Status: v1.PodStatus{Phase: v1.PodPending},
 	}
 }
